@@ -366,6 +366,7 @@ impl StorageEngine {
         if let Some(stored_value) = shard_guard.data.get_mut(key) {
             stored_value.metadata.set_expiration(expires_in);
             shard_guard.expiring_keys.insert(key.to_vec(), Instant::now() + expires_in);
+            shard_guard.mark_modified(key);
             Ok(true)
         } else {
             Ok(false)
@@ -482,6 +483,8 @@ impl StorageEngine {
             // Calculate memory to free from this shard
             for (key, stored_value) in shard_guard.data.iter() {
                 total_memory_to_free += self.calculate_value_size(key, &stored_value.value);
+                // Every key that disappears counts as modified for WATCH
+                shard_guard.mark_modified(key);
             }
             
             shard_guard.data.clear();
@@ -2030,6 +2033,7 @@ impl StorageEngine {
             let mut shard_guard = old_shard.write().unwrap();
             if let Some(stored_value) = shard_guard.data.remove(old_key) {
                 shard_guard.data.insert(new_key.clone(), stored_value);
+                shard_guard.mark_modified(old_key);
                 shard_guard.mark_modified(&new_key);
                 Ok(())
             } else {
@@ -2055,6 +2059,7 @@ impl StorageEngine {
             // Move the value between shards
             if let Some(stored_value) = old_guard.data.remove(old_key) {
                 new_guard.data.insert(new_key.clone(), stored_value);
+                old_guard.mark_modified(old_key);
                 new_guard.mark_modified(&new_key);
                 Ok(())
             } else {
@@ -2111,6 +2116,7 @@ impl StorageEngine {
             if stored_value.metadata.expires_at.is_some() {
                 stored_value.metadata.clear_expiration();
                 shard_guard.expiring_keys.remove(key);
+                shard_guard.mark_modified(key);
                 Ok(true)
             } else {
                 Ok(false)
